@@ -4,6 +4,7 @@ Model driver for C09 (worker pool).  One script per line, one result line per sc
   run <repaired:0|1> <nworkers> <rcspec> <choice>*     → snapshots joined by " | " (first = initial state)
   serial <rcspec> <op>*                                 → API return values of the serial pool model
   monitor <submitted> <startedTickets> <returned>       → `ok` or the list of failing clauses
+  frun <repaired:0|1> <nworkers> <rcspec> <choice>*    → the same at lock/unlock granularity (Model/C09PoolFine.lean; base calls only)
   ctxmon <events>                                       → `ok` | `undisciplined` | `violated ctx`   (Spec/C09PoolX.lean)
   apimon <rcspec> <rets> <op>*                          → `ok` | `violated api`  (rets as printed by `serial`)
 
@@ -29,6 +30,7 @@ last line is `#paths <n> complete|truncated`).
 import Driver.Util
 import Sqfs.Spec.Pool
 import Sqfs.Spec.C09PoolX
+import Sqfs.Model.C09PoolFine
 namespace Driver.C09
 open Sqfs.Pool
 
@@ -205,12 +207,64 @@ def parseRet (t : String) : Option Ret :=
   else if t.startsWith "st:" then (parseInt (t.drop 3).toString).map .status
   else none
 
+
+/-! ### lock/unlock granularity (Model/C09PoolFine.lean) -/
+
+def showFW : FW → String
+  | .at pc => showW pc
+  | .locked l => "L:" ++ showW l.pc
+  | .unlocked (some it) => s!"U:{it.data}"
+  | .unlocked none => "U:null"
+
+def showFM : FM → String
+  | .at pc => showM pc
+  | .locked l => "L:" ++ showM l.pc
+  | .unlocked (.submit st) => s!"U:submit:{st}"
+  | .unlocked (.deq (some it)) => s!"U:deq:{it.data}"
+  | .unlocked (.deq none) => "U:deq:null"
+  | .unlocked (.status st) => s!"U:status:{st}"
+  | .unlocked .destroy => "U:destroy"
+
+def fsnapshot (fs : FState) (ret : String) : String :=
+  let ws := commaList (fs.fw.map showFW)
+  if fs.fm = .at .finished then
+    s!"destroyed m=finished w={ws} r={ret}"
+  else
+    s!"Q={showItems fs.queue} D={showItems fs.done} S={showItems fs.safeDone} nt={fs.nextTicket} nd={fs.nextDeq} " ++
+    s!"ic={fs.itemCount} st={fs.status} rec={fs.recycle} m={showFM fs.fm} w={ws} r={ret} mf={b01 (mutexFree fs)}"
+
+def frunScript (cfg : Cfg) (n : Nat) (cs : List Choice) : String :=
+  let rec go (fs : FState) (cs : List Choice) (acc : List String) : List String × FState :=
+    match cs with
+    | [] => (acc.reverse, fs)
+    | c :: r =>
+      match fstep cfg fs c with
+      | none => go fs r ("ne" :: acc)
+      | some fs' =>
+        let ret := if fs'.rets.length > fs.rets.length then
+            (match fs'.rets.getLast? with | some x => showRet x | none => "-") else "-"
+        go fs' r (fsnapshot fs' ret :: acc)
+  let fs0 := finit n
+  let (snaps, fin) := go fs0 cs [fsnapshot fs0 "-"]
+  " | ".intercalate snaps ++
+    s!" || sub={commaList (fin.submitted.map toString)} cb={commaList (fin.started.map fun p => s!"{p.1}:{p.2.data}")} " ++
+    s!"ret={commaList (fin.returned.map toString)}"
+
+def baseChoice? : XChoice → Option Choice
+  | .base c => some c
+  | _ => none
+
 def stepLine (line : String) : String :=
   match words line with
   | "run" :: rep :: n :: rc :: cs =>
       match (if rep = "0" then some false else if rep = "1" then some true else none), n.toNat?, parseRcSpec rc,
             cs.mapM parseChoice with
       | some rep, some n, some tbl, some cs => runScript { repaired := rep, rcOf := rcFun tbl } n cs
+      | _, _, _, _ => "bad-op"
+  | "frun" :: rep :: n :: rc :: cs =>
+      match (if rep = "0" then some false else if rep = "1" then some true else none), n.toNat?, parseRcSpec rc,
+            cs.mapM (fun t => (parseChoice t).bind baseChoice?) with
+      | some rep, some n, some tbl, some cs => frunScript { repaired := rep, rcOf := rcFun tbl } n cs
       | _, _, _, _ => "bad-op"
   | "serial" :: rc :: ops =>
       match parseRcSpec rc, ops.mapM parseOp with
